@@ -32,6 +32,49 @@ pub fn inputs(p: &Prog, n: usize, alpha: &[E], svals: &[i32]) -> Vec<(Vec<E>, Ve
 /// Returns false when a violation was recorded.
 pub fn check_input(prop: &str, p: &Prog, a: &[E], b: &[E], s: i32, scheds: &[Sched], st: &mut Stats) -> bool {
     let expect = p.reference.map(|r| ref_final(p.out, r(a, b, s)));
+    check_input_with(prop, p, a, b, s, scheds, expect, st)
+}
+
+/// Expected final observation of a keyed-operator program, assembled from its per-key reference.
+pub fn keyed_expect(kp: &crate::hand_table::KProg, a: &[E], s: i32) -> Final {
+    let mut keys: Vec<i32> = a.iter().map(|e| e.0).collect();
+    keys.sort();
+    keys.dedup();
+    let mut per: std::collections::BTreeMap<i64, Vec<Vec<i64>>> = Default::default();
+    for k in keys {
+        let vals: Vec<i32> = a.iter().filter(|e| e.0 == k).map(|e| e.1).collect();
+        let r = (kp.kref)(k, &vals, s);
+        if !r.is_empty() {
+            per.insert(k as i64, r);
+        }
+    }
+    match kp.prog.out {
+        OutKind::KeyedSeq => Final::Keyed(per),
+        OutKind::Multiset | OutKind::Set => {
+            let mut v: Vec<Vec<i64>> = vec![];
+            for (k, els) in per {
+                for e in els {
+                    let mut x = vec![k];
+                    x.extend(e);
+                    v.push(x);
+                }
+            }
+            v.sort();
+            Final::Bag(v)
+        }
+        OutKind::Last => {
+            let mut out = vec![-2000 - per.len() as i64];
+            for (k, els) in per {
+                out.push(k);
+                out.extend(els[0].iter());
+            }
+            Final::Last(Some(out))
+        }
+        OutKind::Seq => unreachable!(),
+    }
+}
+
+pub fn check_input_with(prop: &str, p: &Prog, a: &[E], b: &[E], s: i32, scheds: &[Sched], expect: Option<Final>, st: &mut Stats) -> bool {
     let mut base: Option<(Final, &Sched)> = None;
     let mut raw = std::collections::BTreeSet::new();
     let mut lagging = false;
@@ -98,11 +141,15 @@ pub fn machinery(msg: &str) -> ! {
     std::process::exit(2)
 }
 
-pub fn check_program(prop: &str, p: &Prog, n: usize, alpha: &[E], svals: &[i32], max_trailing: u8) -> Stats {
+pub fn check_program(prop: &str, p: &Prog, kp: Option<&crate::hand_table::KProg>, n: usize, alpha: &[E], svals: &[i32], max_trailing: u8) -> Stats {
     let mut st = Stats::new();
     for (a, b, s) in inputs(p, n, alpha, svals) {
         let scheds = schedules(&a, &b, s, max_trailing);
-        if !check_input(prop, p, &a, &b, s, &scheds, &mut st) {
+        let ok = match kp {
+            Some(kp) => check_input_with(prop, p, &a, &b, s, &scheds, Some(keyed_expect(kp, &a, s)), &mut st),
+            None => check_input(prop, p, &a, &b, s, &scheds, &mut st),
+        };
+        if !ok {
             break; // first failing input of this program is the witness; stop this program
         }
     }
@@ -114,15 +161,17 @@ pub fn check_program(prop: &str, p: &Prog, n: usize, alpha: &[E], svals: &[i32],
     st
 }
 
-pub fn run_c28(rep: &mut Report, progs: &[Prog]) {
+pub fn run_c28(rep: &mut Report, plain: &[Prog], keyed: &[crate::hand_table::KProg]) {
+    let progs: Vec<(&Prog, Option<&crate::hand_table::KProg>)> =
+        plain.iter().map(|p| (p, None)).chain(keyed.iter().map(|k| (&k.prog, Some(k)))).collect();
     let thorough = rep.thorough();
     let n = if thorough { 5 } else { 4 };
     rep.rule = "case = (program, input streams a[,b], singleton s); non-trivial iff it has >= 2 distinct tick schedules; \
                 every schedule (all interleavings of the arrivals x all cuts into ticks x 0..2 trailing empty ticks, \
                 de-duplicated by per-tick per-input content) is executed on the code produced by generate_embedded"
         .into();
-    rep.explanation = "for each program of the safe top-level family (identity, 29 depth-1 and all type-correct depth-2 \
-                       compositions, plus the hand-written corpus) the final observation (sequence for TotalOrder streams, \
+    rep.explanation = "for each program of the safe top-level family (identity, 29 depth-1 terms, the depth-2 compositions selected at build time, \
+                       the hand-written corpus, one program per remaining safe public API and the keyed-operator programs) the final observation (sequence for TotalOrder streams, \
                        multiset for NoOrder streams, last per-tick snapshot for singletons/optionals/keyed singletons) \
                        must be identical across all schedules of the same input and equal to a plain-Vec iterator reference"
         .into();
@@ -137,11 +186,11 @@ pub fn run_c28(rep: &mut Report, progs: &[Prog]) {
     rep.bound("programs", progs.len());
     // heaviest programs (two inputs, singleton values) first: better load balance
     let mut order: Vec<usize> = (0..progs.len()).collect();
-    order.sort_by_key(|i| (!progs[*i].uses_b, !progs[*i].uses_s));
+    order.sort_by_key(|i| (!progs[*i].0.uses_b, !progs[*i].0.uses_s));
     let st = par_map(progs.len(), ncpu().min(16), |i| {
-        let p = &progs[order[i]];
+        let (p, kp) = progs[order[i]];
         let alpha: &[E] = if thorough && !p.uses_b { &ALPHA4 } else { &ALPHA3 };
-        check_program("C28", p, n, alpha, &[1, 2], 2)
+        check_program("C28", p, kp, n, alpha, &[1, 2], 2)
     });
     println!(
         "[C28] programs={} executions={} inputs_with_schedule_dependent_raw_trace={} inputs_with_value_visible_only_after_settling={}",
